@@ -58,11 +58,14 @@ def check(run):
     maybe_unbound(R, 'C09.sites')
     sites(R)
     apiwrap(R)
+    api_escapes(R)
     swallow(R)
     tryall(R)
     release(R)
     socknull(R)
     C08.client(R, RID='C09.graceful')
+    with R.as_rule('C09.graceful'):
+        C08.writers(R)           # who may mark the websocket closed (a send path may not)
     C08.eof(R, RID='C09.graceful')
     from . import C15
     R.rule('C09.hang', 'no hang after a failed or unanswered Close: the close time is recorded whenever close() was '
@@ -308,6 +311,21 @@ def apiwrap(R):
     fm = [x for x in own_nodes(f.node) if isinstance(x, ast.Call) and isinstance(x.func, ast.Attribute) and x.func.attr == 'format']
     R.ob('C09.apiwrap', 'WebSocketError formats msg with its arguments', len(fm) >= 1 and all(U(x.func.value) == f.params[1] for x in fm), 'WebSocketError.__init__ body', func=f,
          node=None, construct='WebSocketError.__init__')
+
+
+def api_escapes(R, RID='C09.apiwrap'):
+    """What the application-facing send methods and close() can raise (exception-flow closure over everything they call):
+    argument errors (TypeError / ValueError) and WebSocketError subclasses - no internal control-flow exception of the event
+    loop (_ForceDisconnect, _SocketFail), no bare OSError."""
+    for m in ('send_text', 'send_binary', 'send_ping', 'send_pong', 'send_json', 'close'):
+        q = WS + '.' + m
+        cx = R.types.ctx(q)
+        esc = sorted(R.exc.escapes(cx))
+        bad = [t for t in esc if t.rstrip('+') not in ('TypeError', 'ValueError', 'zlib.error')
+               and 'errors.WebSocketError' not in R.exc.supers(t.rstrip('+'))]
+        R.ob(RID, '%s() raises only argument errors and WebSocketErrors' % m, not bad,
+             '%s() can raise %s: the application sees an exception that is not a WebSocketError subclass (an internal signal of '
+             'the event loop escaping into application code)' % (m, bad), func=q, node=None, construct='%s escapes %s' % (m, bad))
 
 
 def swallow(R):
